@@ -28,7 +28,7 @@ def run(ctx):
     reps = 4 if thorough else 1
     combos = [c + ("none",) for c in combos] + [(pl, "keep", od, ru) for pl in ("root", "helper", "kept", "datafn")
                                                  for od in ("before", "after") for ru in ("called_before", "kept_before")]
-    combos = [c + (1,) for c in combos] + [(pl, pr, od, "none", nl) for pl in ("root", "helper", "kept", "datafn")
+    combos = [c + (1,) for c in combos] + [(pl, pr, od, "none", nl) for pl in ("root", "helper", "kept", "datafn", "feeds_keep")
                                              for pr in ("datafn", "keep") for od in ("before", "earlier") for nl in (2, 3)]
     for rep in range(reps):
         for (placement, producer, order, reuse, nloads) in combos:
